@@ -168,6 +168,13 @@ class _Analyzer:
         t = self.prog.resolve_global(self.mod.name, name)
         if isinstance(t, tuple) and t[0] in ('modvalue', 'modvalue-multi'):
             self.s.global_reads.add((t[1].name, name))
+            if t[0] == 'modvalue' and isinstance(t[3], ast.Constant) and isinstance(t[3].value, (int, float, str, bool, type(None), bytes)):
+                # an immutable literal (`_FIRST_ID = 1`): nothing can be changed through a name that holds it - `v = _FIRST_ID;
+                # v += 1` rebinds v
+                return FRESH
+            if t[0] == 'modvalue' and isinstance(t[3], ast.UnaryOp) and isinstance(t[3].operand, ast.Constant) and \
+                    isinstance(t[3].operand.value, (int, float)):
+                return FRESH
             return frozenset([(('global', t[1].name, name), OBJ)])
         return FRESH
 
